@@ -82,6 +82,7 @@ def run(db, rep, tier):
     loop_shape(db, rep, f)
     pkthdr(db, rep)
     carry_timestamp(db, rep)
+    sniff_loop_shape(db, rep)
     rep.explanation = ("Decides the 'never lets an exception escape from the per-packet loop' clause for the pcap callbacks and "
                        "the structural part of 'skips malformed frames, ends cleanly': escape sets of all %d installed handlers, "
                        "the processed-flag protocol, the handlers' own reads of the frame (R3) and the shape of next_packet's loop. Round-trip of bytes/timestamps and BPF "
@@ -500,3 +501,46 @@ def null_deref_of_source(f, srcs):
             if not ok:
                 return x
     return None
+
+
+SNIFF_TU = """#include <tins/tins.h>
+static bool verif_cb(Tins::PDU&) { return true; }
+template void Tins::BaseSniffer::sniff_loop<bool (*)(Tins::PDU&)>(bool (*)(Tins::PDU&), uint32_t);
+"""
+
+
+def sniff_loop_shape(db, rep):
+    """sniff_loop: the handlers that swallow malformed_packet / pdu_not_found thrown by the user's callback sit INSIDE the
+    per-packet loop, and so does the packet countdown"""
+    rep.rule("R7-sniff-loop", "sniff_loop swallows the callback's malformed_packet / pdu_not_found per packet: the try block is inside the loop, "
+                              "so one throwing frame does not end the capture", 1)
+    try:
+        d2 = facts.extract_standalone(db, "c17sniff", SNIFF_TU)
+    except facts.AnalysisBroken as e:
+        rep.analysis_broken("sniff_loop does not instantiate: %s" % str(e)[:200])
+        return
+    fs = [f for fid, f in d2.functions.items() if fid.startswith("Tins::BaseSniffer::sniff_loop<") and f.get("body")]
+    if not fs:
+        rep.analysis_broken("BaseSniffer::sniff_loop instantiation not found")
+        return
+    f = fs[0]
+    idx, par = facts.index_fn(f)
+    tries = [x for x in facts.fn_nodes(f) if x["k"] == "CXXTryStmt"]
+    key = "BaseSniffer::sniff_loop"
+    if not tries:
+        rep.violation("R7-sniff-loop", key, facts.loc(f), "no handler for the callback's exceptions any more: they escape from sniff_loop")
+        return
+    for t in tries:
+        p = par.get(t["id"])
+        inloop = False
+        while p is not None:
+            if p["k"] in ("ForStmt", "WhileStmt", "DoStmt", "CXXForRangeStmt"):
+                inloop = True
+            p = par.get(p["id"])
+        holds_loop = any(x["k"] in ("ForStmt", "WhileStmt", "DoStmt", "CXXForRangeStmt") for x in facts.walk(t))
+        if not inloop or holds_loop:
+            rep.violation("R7-sniff-loop", key, facts.loc(f, t),
+                          "the try block encloses the packet loop instead of one callback invocation: the first frame on which the callback "
+                          "throws malformed_packet / pdu_not_found silently ends the whole capture")
+            return
+    rep.ok("R7-sniff-loop", key, facts.loc(f, tries[0]), "exceptions of one callback invocation are swallowed inside the loop")
